@@ -208,7 +208,44 @@ def _large_rows(backend, n_rows, seed):
     return obs, ok
 
 
+def _empty_table(backend):
+    """a table that currently has no rows: the aggregated-only experiment still costs exactly one (empty) aggregate fetch"""
+    import os
+    import sqlite3
+    import tempfile
+    import tea_tasting as tt
+    if backend == "polars-lazy":
+        import polars as pl
+        tab = pl.DataFrame(schema={"variant": pl.Int64, "x": pl.Float64, "y": pl.Float64}).lazy()
+        tmp = None
+    else:
+        import ibis
+        tmp = tempfile.mkdtemp(prefix="ttverif_", dir="/dev/shm" if os.path.isdir("/dev/shm") else None)
+        path = os.path.join(tmp, "t.db")
+        con = sqlite3.connect(path)
+        con.execute("CREATE TABLE t (variant INTEGER, x REAL, y REAL)")
+        con.commit()
+        con.close()
+        tab = ibis.sqlite.connect(path).table("t")
+    try:
+        with B.fetch_counters() as log:
+            res = tt.Experiment(m=tt.Mean("x"), r=tt.RatioOfMeans("x", "y")).analyze(tab, all_variants=True)
+    finally:
+        if tmp:
+            import shutil
+            shutil.rmtree(tmp, ignore_errors=True)
+    obs = [{"rows": f["rows"], "n_columns": len(f["columns"])} for f in log]
+    return obs, (len(log) == 1 and log[0]["rows"] == 0 and len(dict(res)) == 0)
+
+
 def wide_oracle(ctx):
+    for backend in B.LAZY_KINDS:
+        obs, ok = _empty_table(backend)
+        ctx.evaluations += 1
+        ctx.count("oracle:empty-table")
+        if not ok:
+            ctx.violations.append({"what": "empty table: not exactly one aggregate fetch", "detail": str(obs),
+                                   "input": {"empty_table": True, "backend": backend}})
     for backend in B.LAZY_KINDS:
         n_rows = 120_000 if backend == "ibis-sqlite" else 100_000
         seed = ctx.rng.randint(0, 10**6)
@@ -233,6 +270,9 @@ def wide_oracle(ctx):
 
 def replay(ctx, rp):
     case = rp["input"]
+    if case.get("empty_table"):
+        obs, ok = _empty_table(case["backend"])
+        return {"fails": not ok, "observed": obs}
     if case.get("large_rows"):
         obs, ok = _large_rows(case["backend"], case["rows"], case["seed"])
         return {"fails": not ok, "observed": obs}
